@@ -17,6 +17,7 @@ import (
 	"fmt"
 	"net"
 	"strconv"
+	"strings"
 	"testing"
 
 	"github.com/emersion/go-message/textproto"
@@ -31,6 +32,8 @@ import (
 type c19oDelivery struct {
 	Flag   string `json:"flag"`   // "" | requiretls | notls
 	Finish string `json:"finish"` // commit | abort
+	// TwoSpellings: the delivery has a second recipient whose domain is the same one in upper case
+	TwoSpellings bool `json:"second_rcpt_upper_case_domain,omitempty"`
 }
 
 type c19oCase struct {
@@ -70,7 +73,9 @@ func c19oRun(c c19oCase) (fp, detail, outcome string) {
 		holder := map[*mxConn]int{}
 		for i, rd := range live {
 			for _, mc := range rd.connections {
-				if j, dup := holder[mc]; dup {
+				if j, dup := holder[mc]; dup && j == i {
+					return "C19:owner:connection-held-under-two-keys", fmt.Sprintf("after step %d: delivery %d holds one connection object under two domain keys (it will be closed or returned to the pool twice)", step, i)
+				} else if dup {
 					return "C19:owner:one-connection-two-deliveries", fmt.Sprintf("after step %d: deliveries %d and %d, both in progress, work on the same connection object", step, j, i)
 				}
 				holder[mc] = i
@@ -110,6 +115,11 @@ func c19oRun(c c19oCase) (fp, detail, outcome string) {
 			rd := dl.(*remoteDelivery)
 			if err := rd.AddRcpt(ctx, "u@"+c05Domain(0), smtp.RcptOptions{}); err != nil {
 				return "HARNESS", fmt.Sprintf("delivery %d (%q): AddRcpt: %v", i, d.Flag, err), ""
+			}
+			if d.TwoSpellings {
+				if err := rd.AddRcpt(ctx, "v@"+strings.ToUpper(c05Domain(0)), smtp.RcptOptions{}); err != nil {
+					return "HARNESS", fmt.Sprintf("delivery %d: AddRcpt (upper-case domain): %v", i, err), ""
+				}
 			}
 			for _, mc := range rd.connections {
 				if seen[mc] {
@@ -180,7 +190,7 @@ func c19oOrders(n int) [][]int {
 func TestVerifC19Owner(t *testing.T) {
 	r := vx.Start("C19", "owner")
 	defer r.Finish()
-	r.Rule("real remote target (New + Init, real mx_auth policies, real pool and smtpconn) in a world that satisfies REQUIRETLS: 3-4 (thorough: up to 5) deliveries to one domain, each plain / REQUIRETLS / TLS-Required: No, finished by commit or abort; every order of their start and finish steps (starts in index order); after every step no connection object is held by two deliveries in progress, none held by one is idle in the pool, none is in the pool twice, and no delivery to the healthy MX fails")
+	r.Rule("real remote target (New + Init, real mx_auth policies, real pool and smtpconn) in a world that satisfies REQUIRETLS: 3-4 (thorough: up to 5) deliveries to one domain, each plain / REQUIRETLS / TLS-Required: No, finished by commit or abort, for three deliveries also with a second recipient naming the domain in upper case; every order of their start and finish steps (starts in index order); after every step no connection object is held by two deliveries in progress, none held by one is idle in the pool, none is in the pool twice, and no delivery to the healthy MX fails")
 	if rp := r.Replay(); rp != nil {
 		var c c19oCase
 		if json.Unmarshal(rp, &c) != nil || len(c.Deliveries) == 0 {
@@ -200,9 +210,14 @@ func TestVerifC19Owner(t *testing.T) {
 	idx := 0
 	run := func(n int, finishes []string) bool {
 		orders := c19oOrders(n)
+		// for three deliveries each may also name the domain twice in different letter case
+		spell := 1
+		if n == 3 {
+			spell = 2
+		}
 		total := 1
 		for i := 0; i < n; i++ {
-			total *= len(flags) * len(finishes)
+			total *= len(flags) * len(finishes) * spell
 		}
 		for code := 0; code < total; code++ {
 			ds := make([]c19oDelivery, n)
@@ -212,6 +227,8 @@ func TestVerifC19Owner(t *testing.T) {
 				x /= len(flags)
 				ds[i].Finish = finishes[x%len(finishes)]
 				x /= len(finishes)
+				ds[i].TwoSpellings = x%spell == 1
+				x /= spell
 			}
 			for _, o := range orders {
 				idx++
